@@ -126,6 +126,9 @@ func (e *Env) resolveType(name string) (Sort, types.Type) {
 		return SInt, nil
 	}
 	if strings.HasPrefix(name, "[]") {
+		if bt := preciseBasic(name[2:]); bt != nil {
+			return SSlice, types.NewSlice(bt)
+		}
 		_, inner := e.resolveType(name[2:])
 		if inner != nil {
 			return SSlice, types.NewSlice(inner)
@@ -795,6 +798,9 @@ func (e *Env) trCall(x *ECall) TV {
 			return TV{T: Select(g, argOf(0).T), Ty: boolT}
 		}
 		e.fail("visited() outside a map range loop")
+	case "strByteAt": // strByteAt(s, j): the j-th byte of []byte(s) (the conversion is a function of the string)
+		need(2)
+		return TV{T: Select(App("str_bytes", ArraySort(SInt, SInt), argOf(0).T), argOf(1).T), Ty: intT}
 	case "trunc": // trunc(x): Go's conversion of a float64 to an integer type (truncation toward zero)
 		need(1)
 		x := argOf(0).T
